@@ -173,3 +173,8 @@ EXPLANATION = "under construction"
 ASSUMPTIONS = []
 TRUSTED = []
 BOUNDED = [{"name": "deep-snapshot-around-every-operation", "script": "bounded/b08_noninterference.py"}]
+
+# get_defaults hands out copies of the declared defaults (never the parser's own objects)
+import dataclasses as _dc  # noqa: E402
+from contracts.c04 import UNITS as _C04_UNITS  # noqa: E402
+UNITS += [_dc.replace(u, prop="C08") for u in _C04_UNITS if u.target.endswith("ArgumentParser.get_defaults")]
